@@ -257,7 +257,7 @@ def gen_library(rng, tier):
     radius = 0 if kind == 'nla' else rng.choice([0, 0, 0, 3, 10])
     if kind == 'nla' and rng.random() < 0.3:
         radius = 1000                  # the NLA default; ignored by the site hash
-    cap = rng.choice([0, 0, 0, 0, 2, 3])
+    cap = rng.choice([0, 0, 0, 0, 1, 2, 3])
     pooling = rng.choice([0, 1, 1])
     paired = rng.random() < 0.5
     rlen = rng.choice([8, 12, 20]) if paired else SINGLE
@@ -314,11 +314,19 @@ def gen_library(rng, tier):
                              'rlen': rlen, 'clip': 0, 'umi': u, 'valid': True, 'how': '', 'dup': rng.random() < 0.4}
                         if kind != 'plain' and not paired and rng.random() < 0.15:
                             d['clip'] = rng.choice([1, 2, 3])
+                        elif not paired and rng.random() < 0.12:
+                            d['indel'] = rng.choice(['I', 'D'])           # insertion / deletion inside R1
+                        if paired and rng.random() < 0.08:
+                            d['half'] = True                              # R2 unmapped
+                        if rng.random() < 0.06:
+                            d['mq0'] = True                               # mapping quality 0 (still a valid fragment)
                         r = rng.random()
                         if r < 0.06:
                             d['valid'], d['how'] = False, 'qcfail'
                         elif r < 0.10 and kind == 'nla':
                             d['valid'], d['how'] = False, 'nomotif'
+                        elif r < 0.13 and kind != 'plain' and paired:
+                            d['valid'], d['how'] = False, 'r2only'
                         frs.append(d)
     dup_mode = rng.choice(['random', 'random', 'all', 'none', 'first'])
     for i, d in enumerate(frs):
@@ -326,12 +334,16 @@ def gen_library(rng, tier):
             d['dup'] = True
         elif dup_mode == 'none':
             d['dup'] = False
+    if frs and rng.random() < 0.12:
+        shift_to_zero(kind, frs, rng)
     return {'kind': kind, 'hd': hd, 'radius': radius, 'cap': cap, 'pooling': pooling, 'readlen': rlen,
-            'dup_mode': dup_mode}, frs
+            'dup_mode': dup_mode, 'shape': rng.choice(['tuple', 'bare', 'list1'])}, frs
 
 
 def run_library(cfg, frs, rng, tid, retag=True, via_bam=False):
     kind = cfg['kind']
+    if cfg.get('zero') and frs:
+        shift_to_zero(kind, frs, rng)
     built = []
     for i, d in enumerate(frs):
         pair, s, e = build(kind, 0, d, rng)
@@ -356,13 +368,14 @@ def run_library(cfg, frs, rng, tid, retag=True, via_bam=False):
     frags = [describe(d, s, e) for d, pair, s, e in built]
     cache = 10000
     rounds = []
+    shape = cfg.get('shape', 'tuple')
     r1, raised = iterate(kind, reads, hd=cfg['hd'], radius=cfg['radius'], cap=cfg['cap'], pooling=cfg['pooling'], sched=None,
-                         cache=cache, tags=True)
+                         cache=cache, tags=True, shape=shape)
     rounds.append(r1)
     if retag and not raised:
         bam = write_bam(os.path.join(os.getcwd(), 'retag_%d.bam' % tid), reads) if via_bam else None
         r2, raised2 = iterate(kind, reads, hd=cfg['hd'], radius=cfg['radius'], cap=cfg['cap'], pooling=cfg['pooling'], sched=None,
-                              cache=cache, tags=True, bam=bam)
+                              cache=cache, tags=True, bam=bam, shape=shape)
         if bam:
             os.remove(bam)
         rounds.append(r2)
@@ -374,10 +387,11 @@ def run_library(cfg, frs, rng, tid, retag=True, via_bam=False):
         # overflow before the end: check on every fragment, small cache), then a complete second iteration; reference = a fresh
         # iterator with the same settings
         rc = 2 * (max([e - s for d, pair, s, e in built] + [1]) + (0 if kind == 'nla' else cfg['radius']) + 8)
-        kw = dict(hd=cfg['hd'], radius=cfg['radius'], cap=cfg['cap'], pooling=cfg['pooling'], sched=0, cache=rc, tags=True)
+        kw = dict(hd=cfg['hd'], radius=cfg['radius'], cap=cfg['cap'], pooling=cfg['pooling'], sched=0, cache=rc, tags=True, shape=shape)
+        mode = cfg['reuse'] if isinstance(cfg['reuse'], str) else ('break', 'error', 'complete')[tid % 3]
         fresh, ra = iterate(kind, reads, **kw)
-        reused, rb = iterate(kind, reads, reuse=True, **kw)
-        ev['reuse'] = {'sched': 0, 'cache': rc, 'raised': ra or rb, 'fresh': fresh, 'reused': reused}
+        reused, rb = iterate(kind, reads, reuse=mode, **kw)
+        ev['reuse'] = {'sched': 0, 'cache': rc, 'mode': mode, 'raised': ra or rb, 'fresh': fresh, 'reused': reused}
     return ev
 
 
@@ -402,6 +416,23 @@ def directed_libraries():
             out.append((dict(base, hd=0, cap=2), [f(1, 1, 0, 100, u, flen=6 + k) for k in range(4)] + [f(1, 1, 0, 100, v2)]))
             # same coordinates on two contigs
             out.append((dict(base, hd=0), [f(1, 1, 0, 100, u), f(1, 2, 0, 100, u), f(1, 2, 0, 100, u, flen=9)]))
+            # empty input, a single fragment, only invalid fragments
+            out.append((dict(base, hd=0), []))
+            out.append((dict(base, hd=1), [f(1, 1, 0, 100, u)]))
+            out.append((dict(base, hd=0), [f(1, 1, 0, 100, u, valid=False, how='qcfail'), f(1, 1, 0, 100, u, valid=False, how='qcfail', flen=9)]))
+            # cap 1: every further copy is turned away
+            out.append((dict(base, hd=0, cap=1), [f(1, 1, 0, 100, u, flen=6 + k) for k in range(3)] + [f(1, 1, 0, 100, v2)]))
+            # left-most alignment at reference position 0 (forward and reverse), mapping quality 0, indels, names c1/c11 + chr1/chr11
+            z = [f(1, 1, 0, 100, u), f(1, 1, 0, 100, u, flen=12), f(1, 1, 1, 100, u, flen=10), f(1, 1, 1, 100, u, flen=12),
+                 f(2, 1, 0, 100, u), f(1, 2, 0, 100, u), f(2, 2, 0, 100, u), f(3, 3, 0, 100, u), f(3, 3, 0, 100, u, flen=11)]
+            z[1]['indel'], z[3]['indel'], z[8]['indel'] = 'I', 'D', 'D'
+            z[0]['mq0'] = z[2]['mq0'] = z[3]['mq0'] = True
+            out.append((dict(base, hd=0, zero=True), z))
+            # half-mapped pairs (R2 unmapped) next to complete pairs and single reads of the same molecule
+            hp = [f(1, 1, 0, 100, u, rlen=8, flen=20), f(1, 1, 0, 100, u, rlen=8, flen=16), f(1, 1, 1, 100, u, rlen=8, flen=20),
+                  f(1, 1, 1, 100, u, rlen=8, flen=14)]
+            hp[1]['half'] = hp[3]['half'] = True
+            out.append((dict(base, hd=0, readlen=8), hp))
             # invalid fragments between copies
             out.append((dict(base, hd=0), [f(1, 1, 0, 100, u), f(1, 1, 0, 100, u, valid=False, how='qcfail'), f(1, 1, 0, 100, u, flen=9)]))
             if kind != 'nla':
@@ -461,6 +492,8 @@ def mode_c06(emit, tier, rng):
         if not frs or cfg['kind'] == 'plain':
             continue
         cfg.update(hd=0, cap=0, radius=0)
+        for d in frs:
+            d.pop('half', None)
         tid += 1
         done += 1
         emit(dict(run_library(cfg, frs, rng, tid, via_bam=True), via='bam'))
@@ -470,6 +503,9 @@ def mode_c06(emit, tier, rng):
 # C07: schedules
 
 def run_schedules(kind, cfg, frs, rng, tid, scheds=None, poolings=(0, 1), model=None, via_bam=False):
+    if cfg.get('zero') and frs:
+        shift_to_zero(kind, frs, rng)
+    shape = cfg.get('shape', 'tuple')
     built = []
     for d in frs:
         pair, s, e = build(kind, 0, d, rng)
@@ -492,16 +528,17 @@ def run_schedules(kind, cfg, frs, rng, tid, scheds=None, poolings=(0, 1), model=
     for pooling in poolings:
         for sched in scheds:
             emits, raised = iterate(kind, reads, hd=cfg['hd'], radius=cfg['radius'], cap=0, pooling=pooling, sched=sched,
-                                    cache=cfg['cache'], tags=False, bam=bam)
+                                    cache=cfg['cache'], tags=False, bam=bam, shape=shape)
             runs.append({'sched': -1 if sched is None else sched, 'pooling': pooling, 'raised': raised, 'emits': emits})
     if bam:
         os.remove(bam)
     if cfg.get('reuse'):
         for pooling in poolings:
             for sched in [x for x in scheds if x is not None and x <= 2]:
+                mode = ('break', 'error', 'complete')[(tid + sched + pooling) % 3]
                 emits, raised = iterate(kind, reads, hd=cfg['hd'], radius=cfg['radius'], cap=0, pooling=pooling, sched=sched,
-                                        cache=cfg['cache'], tags=False, reuse=True)
-                runs.append({'sched': sched, 'pooling': pooling, 'raised': raised, 'emits': emits, 'reuse': 1})
+                                        cache=cfg['cache'], tags=False, reuse=mode, shape=shape)
+                runs.append({'sched': sched, 'pooling': pooling, 'raised': raised, 'emits': emits, 'reuse': 1, 'mode': mode})
     return {'ev': 'sched', 'tid': tid, 'kind': kind, 'hd': cfg['hd'], 'radius': cfg['radius'], 'cap': 0, 'cache': cfg['cache'],
             'readlen': cfg['readlen'], 'frags': frags, 'runs': runs, 'model': model or []}
 
@@ -534,13 +571,22 @@ def gen_sequence(rng, tier):
                                 'flen': flen, 'rlen': rlen, 'clip': 0, 'umi': u, 'valid': True, 'how': '', 'dup': False})
     rng.shuffle(frs)
     frs = frs[:(10 if tier == 'quick' else 14)]
-    return kind, {'hd': hd, 'radius': radius, 'cache': cache, 'readlen': rlen}, frs
+    for d in frs:
+        if rng.random() < 0.05:
+            d['mq0'] = True
+    return kind, {'hd': hd, 'radius': radius, 'cache': cache, 'readlen': rlen, 'zero': rng.random() < 0.12,
+                  'shape': rng.choice(['tuple', 'bare', 'list1'])}, frs
 
 
 def directed_sequences():
     """The counterexample of the negative control (long + short molecule ahead of a later duplicate pair), embedded in
     real coordinates for every kind / pooling-relevant bucket layout, and neighbours of the region boundary."""
     out = []
+    for kind0 in ('nla', 'plain'):
+        out.append((kind0, {'hd': 0, 'radius': 0, 'cache': 20, 'readlen': SINGLE, 'keep_order': True}, []))
+        out.append((kind0, {'hd': 0, 'radius': 0, 'cache': 20, 'readlen': SINGLE, 'keep_order': True, 'zero': True},
+                    [{'cell': 1, 'contig': 1, 'strand': 0, 'site': 100, 'flen': 8, 'rlen': SINGLE, 'clip': 0, 'umi': [0, 1], 'valid': True,
+                      'how': '', 'dup': False}]))
 
     def f(strand, site, flen, umi=(0, 1), cell=1, contig=1, rlen=SINGLE):
         return {'cell': cell, 'contig': contig, 'strand': strand, 'site': site, 'flen': flen, 'rlen': rlen, 'clip': 0,
@@ -561,6 +607,8 @@ def directed_sequences():
                 out.append((kind, cfg, [f(0, 100, h), f(0, 100, 5, umi=(1, 1)), f(0, 100, h, contig=2), f(0, 100, 6, contig=2)]))
                 # reverse-strand duplicates (same end, different starts) separated by an unrelated long fragment
                 out.append((kind, cfg, [f(1, 130, h), f(0, 131 - h + 1, h, umi=(3, 3)), f(1, 130, 5)]))
+                # the first one again with the left-most alignment at reference position 0
+                out.append((kind, dict(cfg, zero=True), [f(0, 100, h), f(0, 100, 5, umi=(2, 2)), f(0, 100 + h - 2, h), f(0, 100 + h - 2, h)]))
     # one bucket (plain; CHiC with radius) holding ejectable / still open / ejectable molecules in that order when the check
     # fires, then a later fragment that joins the open one (reverse strand: same end, later start)
     for kind, radius in (('plain', 0), ('plain', 2), ('chic', 2), ('chic', 4), ('nla', 0)):
@@ -659,9 +707,11 @@ def undescribe(kind, ev, fr):
         clip = fr['start'] - (fr['site'] + 1) if fr['strand'] == 0 else fr['site'] - fr['end']
     else:
         clip = 0
-    return {'cell': fr['cell'], 'contig': fr['contig'], 'strand': fr['strand'], 'site': fr['site'], 'flen': flen,
-            'rlen': ev['readlen'], 'clip': clip, 'umi': fr['umi'], 'valid': fr['valid'], 'how': '' if fr['valid'] else 'qcfail',
-            'dup': fr.get('dup', False)}
+    d = {'cell': fr['cell'], 'contig': fr['contig'], 'strand': fr['strand'], 'site': fr['site'], 'flen': flen,
+         'rlen': ev['readlen'], 'clip': clip, 'umi': fr['umi'], 'valid': fr['valid'], 'how': '' if fr['valid'] else 'qcfail',
+         'dup': fr.get('dup', False)}
+    d.update(fr.get('gen', {}))          # exact generator details when recorded
+    return d
 
 
 def mode_replay(emit, rng, event_file):
